@@ -342,6 +342,23 @@ func (l *Lab) Connect() error {
 	return err
 }
 
+// ConnectAgain offers the session a further connection while one is open. A session must refuse it
+// ("Already connected"); if it accepts, the lab follows the engine to the new connection and says so in the trace.
+func (l *Lab) ConnectAgain() (accepted bool) {
+	l.begin("connect (second offer while connected)")
+	ch := make(chan []byte, 1024)
+	err := l.V.Connect(ch)
+	if err == nil {
+		l.drain() // what was still written to the old connection
+		l.Conn++
+		l.Out, l.closedSeen, l.inBuf = ch, false, nil
+		l.add(Event{Kind: "step", Detail: "second offer accepted"}, true)
+		accepted = true
+	}
+	l.drain()
+	return accepted
+}
+
 // In feeds inbound bytes through the real stream parser, then to the session, frame by frame.
 // It returns the number of frames the parser extracted.
 //
